@@ -30,8 +30,6 @@ MODNAME = 'c13_generated_module'
 EMPTY = inspect.Parameter.empty
 P_OR_K = inspect.Parameter.POSITIONAL_OR_KEYWORD
 KW_ONLY = inspect.Parameter.KEYWORD_ONLY
-VAR_P = inspect.Parameter.VAR_POSITIONAL
-VAR_K = inspect.Parameter.VAR_KEYWORD
 
 UNKNOWN = 'zz'            # keyword name no generated function has
 NEW = ('zq', 'zr')        # names added with expected=
@@ -86,7 +84,7 @@ def default_value(spec, name, kind, idx):
     return [name]
 
 
-def annotated(spec, index, nparams):
+def annotated(spec, index):
     mode = spec['ann']
     if mode == 'all':
         return True
@@ -105,7 +103,7 @@ def make_function(spec):
     pos_i = kwo_i = 0
     for index, (name, kind, has_d) in enumerate(params):
         text = name
-        if spec.get('kind', 'def') == 'def' and annotated(spec, index, len(params)):
+        if spec.get('kind', 'def') == 'def' and annotated(spec, index):
             ns['A_' + name] = ANN_CYCLE[index % len(ANN_CYCLE)]
             text += ': A_' + name
         if kind == 'va':
@@ -273,8 +271,14 @@ def variant_shape(variant):
         parts.append('injected')
     exp = variant.get('expected')
     if exp:
-        parts.append('expected(%s)' % ('no default' if exp['default'] == 'none' else 'default'))
+        no_default = any(d is EMPTY for _, d in expected_items(exp))
+        parts.append('expected(%s)' % ('no default' if no_default else 'default'))
     return '+'.join(parts) or 'plain'
+
+
+def make_sig(shape, what):
+    """Stable, space-free violation signature: way of wrapping (shape) + the observable that disagreed."""
+    return ('C13|fn:wraps|%s|%s' % (shape, what)).replace(' ', '_')
 
 
 def param_class(names, p):
@@ -533,7 +537,7 @@ def check_variant(t, spec, variant, f, names, part, calls=None):
         if call is not None:
             case['call'] = {'npos': call[0], 'kw': list(call[1])}
         # workers send the tally through a pipe: keep only plain data (objects -> repr)
-        t.bad('C13|fn:wraps|%s|%s' % (shape, what), case, core.jsonable(expected), core.jsonable(observed),
+        t.bad(make_sig(shape, what), case, core.jsonable(expected), core.jsonable(observed),
               detail={'source': names['src'], 'api': variant['api']}, tags=tags)
 
     t.count(nontrivial=ap.nontrivial_sig, sample=base_case)
@@ -606,7 +610,7 @@ def check_spec(t, spec, tier, part):
         try:
             check_variant(t, spec, variant, f, names, part)
         except Hang:
-            t.bad('C13|fn:wraps|%s|no result within the time budget' % variant_shape(variant),
+            t.bad(make_sig(variant_shape(variant), 'no result within the time budget'),
                   {'part': part, 'spec': spec, 'variant': variant}, 'termination',
                   'still running after %d s' % VARIANT_BUDGET_S)
         finally:
